@@ -65,3 +65,9 @@ package objectdeployments
 //@   at SetPausedByParent#1 assert [C09] !pausedByParent(objectSet) && depPaused(objectDeployment)
 //@   sink Client.Update#1 requires [C09] !archivedOS(objectSet)
 //@   loop 3 invariant !depPaused(objectDeployment)
+
+//@ props C07
+// every ObjectSet the API lists for the deployment is handed on (sorted by revision): none is left out, so the new
+// revision names all of them as previous and gets a revision number above all of theirs
+//@ func package-operator.run/internal/controllers/objectdeployments.(*GenericObjectDeploymentController).listObjectSetsByRevision
+//@   ensures [C07] result1 == nil ==> len(result0) == len(itemsOf(objectSetList)) && sarr(result0) == sarr(itemsOf(objectSetList))
